@@ -34,6 +34,11 @@ type RtRefreshManager struct {
 	ctx      context.Context
 	cancel   context.CancelFunc
 	refcount sync.WaitGroup
+	// closeLk orders refcount.Add in Refresh before refcount.Wait in Close: an
+	// Add with a zero counter concurrent with Wait is a WaitGroup misuse that
+	// panics ("WaitGroup is reused before previous Wait has returned").
+	closeLk sync.RWMutex
+	closed  bool
 
 	// peerId of this DHT peer i.e. self peerId.
 	h         host.Host
@@ -97,6 +102,9 @@ func (r *RtRefreshManager) Start() {
 
 func (r *RtRefreshManager) Close() error {
 	r.cancel()
+	r.closeLk.Lock()
+	r.closed = true
+	r.closeLk.Unlock()
 	r.refcount.Wait()
 	return nil
 }
@@ -108,14 +116,25 @@ func (r *RtRefreshManager) Close() error {
 // error and close. The channel is buffered and safe to ignore.
 func (r *RtRefreshManager) Refresh(force bool) <-chan error {
 	resp := make(chan error, 1)
-	r.refcount.Go(func() {
+	r.closeLk.RLock()
+	if r.closed {
+		// Close has started waiting for refcount: do not add to it any more.
+		r.closeLk.RUnlock()
+		resp <- r.ctx.Err()
+		close(resp)
+		return resp
+	}
+	r.refcount.Add(1)
+	r.closeLk.RUnlock()
+	go func() {
+		defer r.refcount.Done()
 		select {
 		case r.triggerRefresh <- &triggerRefreshReq{respCh: resp, forceCplRefresh: force}:
 		case <-r.ctx.Done():
 			resp <- r.ctx.Err()
 			close(resp)
 		}
-	})
+	}()
 
 	return resp
 }
